@@ -1,2 +1,130 @@
-(* C04 — property theorems (being written). *)
-From HV Require Import Model.Keys Model.Tstate.
+(* C04 — The transactional state view behaves like a key-value map with checkpoints.
+   Property theorems only; model: Model/Tstate.v (state/tstate/tstate_view.go, tstate.go),
+   proofs: Proofs/Tstate_proofs.v.
+
+   vis s k   : the visible value of k (view's pending change, else block diff, else parent state)
+   reachable : any state of a view obtained from NewView by any history of
+               GetValue / Insert / Remove / Rollback calls (arbitrary TState, scope, storage). *)
+From stdpp Require Import gmap.
+From Coq Require Import NArith.
+From HV Require Import Lib.Bytes Model.Keys Model.Tstate Proofs.Keys_proofs Proofs.Tstate_proofs.
+Local Open Scope N_scope.
+
+(* Every permitted read returns the visible value (not-found iff there is none); a fresh view falls
+   back to the block's pending changes and then to the parent state.  Together with C04_insert /
+   C04_remove (a write makes its value the visible one) this is "read returns the last write". *)
+Theorem C04_read_last_write : forall (s : view) (k : key),
+  scope_has (v_scope s) k pRead = true ->
+  get s k = match vis s k with Some v => inl v | None => inr ENotFound end.
+Proof. exact get_vis. Qed.
+Print Assumptions C04_read_last_write.
+
+Theorem C04_fresh_view_falls_back : forall ts sc base (k : key),
+  vis (new_view ts sc base) k = match ts_changed ts !! k with Some ov => ov | None => base !! k end.
+Proof. exact fresh_view_vis. Qed.
+Print Assumptions C04_fresh_view_falls_back.
+
+(* A successful Insert makes v visible at k and changes no other key; the op index grows by one
+   exactly when the visible value changed; a failing Insert changes nothing at all. *)
+Theorem C04_insert : forall (s s' : view) (k : key) (v : val),
+  (insert s k v = (s', None) ->
+     vis s' k = Some v /\ (forall k', k <> k' -> vis s' k' = vis s k') /\
+     op_index s' = if decide (vis s k = Some v) then op_index s else op_index s + 1)
+  /\ (forall e, insert s k v = (s', Some e) -> s' = s).
+Proof.
+  intros s s' k v. split.
+  - intros H. destruct (insert_vis _ _ _ _ H) as [H1 H2]. auto using insert_op_index.
+  - intros e H. exact (insert_fail _ _ _ _ _ H).
+Qed.
+Print Assumptions C04_insert.
+
+Theorem C04_remove : forall (s s' : view) (k : key),
+  (remove s k = (s', None) ->
+     vis s' k = None /\ (forall k', k <> k' -> vis s' k' = vis s k') /\
+     op_index s' = if decide (vis s k = None) then op_index s else op_index s + 1)
+  /\ (forall e, remove s k = (s', Some e) -> s' = s).
+Proof.
+  intros s s' k. split.
+  - intros H. destruct (remove_vis _ _ _ H) as [H1 H2]. auto using remove_op_index.
+  - intros e H. exact (proj1 (remove_fail _ _ _ _ H)).
+Qed.
+Print Assumptions C04_remove.
+
+(* Rollback: for every history h1 ++ h2 (h2's own restore points at or above the checkpoint taken
+   after h1), rolling back to the op index recorded after h1 restores the visible value of EVERY
+   key, the pending map and the op index. *)
+Theorem C04_rollback : forall ts sc base (h1 h2 : list hop),
+  let s1 := fst (run (new_view ts sc base) h1) in
+  Forall (above (op_index s1)) h2 ->
+  let s2 := rollback (fst (run s1 h2)) (op_index s1) in
+  (forall k, vis s2 k = vis s1 k) /\ op_index s2 = op_index s1 /\ pending s2 = pending s1
+  /\ ops s2 = ops s1.
+Proof.
+  intros ts sc base h1 h2 s1 Hab s2.
+  destruct (rollback_restores s1 h2 (run_view_ok h1 _ (view_ok_new ts sc base)) Hab)
+    as (Hp & _ & Ho & Hi & Hv & _).
+  auto.
+Qed.
+Print Assumptions C04_rollback.
+
+(* Commit publishes exactly the keys whose visible value differs from the underlying state, with
+   those values; every other entry of the block diff is left as it was; a later view over the
+   committed TState sees exactly what this view saw. *)
+Theorem C04_commit_minimal : forall (s : view) (k : key), reachable s ->
+  (is_Some (pending s !! k) <-> vis s k <> under s k)
+  /\ ts_changed (commit s) !! k =
+       (if decide (vis s k = under s k) then ts_changed (v_ts s) !! k else Some (vis s k))
+  /\ (forall sc, vis (new_view (commit s) sc (v_base s)) k = vis s k)
+  /\ ts_ops (commit s) = ts_ops (v_ts s) + op_index s.
+Proof.
+  intros s k Hr. pose proof (reachable_ok s Hr) as Hok.
+  split; [exact (pending_iff_changed s k Hok)|].
+  split; [exact (commit_minimal s k Hok)|].
+  split; [intros sc; apply commit_new_view_vis | reflexivity].
+Qed.
+Print Assumptions C04_commit_minimal.
+
+(* Refinement: on every history the view returns the same results, shows the same visible map and
+   the same op index as a plain map [key -> option val] with a stack of snapshots (a_run). *)
+Theorem C04_refines_map : forall ts sc base (h : list hop),
+  let s := fst (run (new_view ts sc base) h) in
+  let a := fst (a_run (a_init ts sc base) h) in
+  snd (run (new_view ts sc base) h) = snd (a_run (a_init ts sc base) h)
+  /\ (forall k, vis s k = a_cur a k) /\ op_index s = a_index a.
+Proof. exact refines_new_run. Qed.
+Print Assumptions C04_refines_map.
+
+(* ---- non-vacuity / regression examples (evaluated in the model) *)
+Definition ex_k : key := [97; 0; 1].
+Definition ex_q : key := [98; 0; 1].
+Definition ex_view : view := new_view ts_new (ScopeKeys {[ex_k := 7; ex_q := 7]}) {[ex_k := [7]]}.
+
+(* the history fixed by 340ee66: Remove; Insert; Remove of a key present in the parent *)
+Example C04_f1_history :
+  vis (fst (run ex_view [HRem ex_k; HIns ex_k [9]; HRem ex_k])) ex_k = None.
+Proof. vm_compute. reflexivity. Qed.
+
+(* the rollback theorem's hypothesis is satisfiable with inner rollbacks, and its conclusion is
+   not trivial: the view has changed before the rollback *)
+Example C04_rollback_example :
+  let h1 := [HRem ex_k; HIns ex_q [1]] in
+  let h2 := [HIns ex_k [9]; HRem ex_k; HRb 3; HRem ex_q; HIns ex_k [7]] in
+  let s1 := fst (run ex_view h1) in
+  Forall (above (op_index s1)) h2
+  /\ vis (fst (run s1 h2)) ex_q <> vis s1 ex_q
+  /\ vis (rollback (fst (run s1 h2)) (op_index s1)) ex_q = vis s1 ex_q.
+Proof.
+  cbn zeta. split; [|split].
+  - repeat constructor. vm_compute. discriminate.
+  - vm_compute. discriminate.
+  - vm_compute. reflexivity.
+Qed.
+
+Example C04_reachable_example : reachable (fst (run ex_view [HRem ex_k])).
+Proof. exists ts_new, (ScopeKeys {[ex_k := 7; ex_q := 7]}), {[ex_k := [7]]}, [HRem ex_k]. reflexivity. Qed.
+
+(* delete + re-create with the parent value publishes nothing for that key *)
+Example C04_commit_example :
+  let t := ts_changed (commit (fst (run ex_view [HRem ex_k; HIns ex_k [7]; HIns ex_q [1]]))) in
+  t !! ex_q = Some (Some [1]) /\ t !! ex_k = None /\ size t = 1%nat.
+Proof. vm_compute. auto. Qed.
